@@ -1,4 +1,4 @@
-import Tibc.App.Transfer
+import Tibc.Lemmas.MtSupplyWorld
 /-
   C05 — Multi-token transfers conserve supply across chains.
   PROPERTY THEOREMS ONLY.
@@ -6,14 +6,17 @@ import Tibc.App.Transfer
   Status: PARTIAL. Proved: the 64-bit arithmetic of every token-module operation the transfer
   application uses (no wrap-around under the stated, locally checkable bounds; exact deltas of
   balances and supply), and that an error acknowledgement leaves balances and supplies unchanged.
-  NOT yet proved: the cross-chain sum invariant (escrow = downstream circulation + in flight;
-  user-held + in-flight = natively minted) over all histories — checked on the real chains by the
-  provenance-ledger oracle of the `mt` stream (DESIGN §5 C05).
+  Proved over all histories of the N-chain world: on every chain, for every (class, id), the
+  balances of all holders (users, the transfer module's escrow account) add up to the recorded
+  supply and nothing exceeds 2^64-1 (`mt_supply_conserved`) — no operation, successful or failed,
+  creates or destroys units except mint and burn, by exactly their amount.
+  NOT proved: the cross-chain part (escrow on the origin = circulation downstream + in flight) —
+  checked on the real chains by the provenance-ledger oracle of the `mt` stream.
 -/
 namespace Tibc.C05
 open Tibc MtMod
 
-variable (Hc : Str → Str)
+variable (H : Data → Digest) (Hc : Str → Str)
 
 /-- unchecked subtraction does not wrap when dominated by a preceding `≥` check -/
 theorem subWrap_exact (a b : Nat) (ha : a ≤ U64MAX) (hb : b ≤ a) : subWrap a b = a - b := by
@@ -92,5 +95,113 @@ theorem mintMT_exact (m : MtMod) (cls id : Str) (amt : Nat) (rc : Addr)
     have h2 : ¬ U64MAX - m.bal (cls, id, rc) < amt := by omega
     simp only [h2, if_false]
     exact ⟨trivial, by unfold U64MAX at *; omega, trivial, trivial⟩
+
+/-! ### exact refund (MT) -/
+
+/-- **Refund is exact (MT).** If `SendMtTransfer` took `amt` units (escrowed them when moving away
+    from the origin, burned them when moving back) on a chain whose multi-token module satisfies
+    the conservation invariant, and the transfer is refunded, then every balance and every supply of
+    the sending chain is exactly what it was before the send. -/
+theorem mt_refund_exact (a a1 : Apps) (cls id full : Str) (sender receiver : Addr) (away : Bool) (dc md : String) (amt : Nat)
+    (hinv : MtInv a.mt) (hcons : ibcClass Hc full = cls) (hsv : addrValid sender = true) (hne : sender ≠ mtModAddr)
+    (htok : mtSendToken a cls id amt sender away = (a1, .ok)) :
+    let d : MtData := { cls := full, id := id, data := md, sender := sender, receiver := receiver, away := away,
+                        destContract := dc, amount := amt }
+    (mtRefund Hc a1 d).2 = .ok ∧ (mtRefund Hc a1 d).1.mt.bal = a.mt.bal ∧ (mtRefund Hc a1 d).1.mt.supply = a.mt.supply := by
+  intro d
+  have hvc : ibcClass Hc d.cls = cls := hcons
+  have hds : d.sender = sender := rfl
+  have hdi : d.id = id := rfl
+  have hda : d.amount = amt := rfl
+  obtain ⟨A, hA⟩ := hinv
+  obtain ⟨B0, hB0, hs0, hsub0⟩ := hA.extend sender
+  obtain ⟨B, hB, hm, hsub⟩ := hB0.extend mtModAddr
+  have hs : sender ∈ B := hsub sender hs0
+  have hbs := hB.bal_le cls id sender
+  have hbm := hB.bal_le cls id mtModAddr
+  have hsup := hB.2.2.2 cls id
+  have htwo := two_le_sumOver B hB.1 (fun x => a.mt.bal (cls, id, x)) sender mtModAddr hs hm hne
+  rw [hB.2.2.1 cls id] at htwo
+  have hk1 : ¬ ((cls, id, mtModAddr) = (cls, id, sender)) := fun h => hne (congrArg (fun x => x.2.2) h).symm
+  have hk2 : ¬ ((cls, id, sender) = (cls, id, mtModAddr)) := fun h => hne (congrArg (fun x => x.2.2) h)
+  unfold mtSendToken at htok
+  unfold mtRefund
+  simp only [hds, hdi, hda, hsv, Bool.not_true, Bool.false_eq_true, if_false, hvc]
+  cases away with
+  | true =>
+    simp only [if_true] at htok
+    by_cases hen : amt ≤ a.mt.bal (cls, id, sender)
+    · rw [transferOwner_eq a.mt cls id amt sender mtModAddr hne (by omega) hen (by omega)] at htok
+      simp only [liftMt, Prod.mk.injEq, and_true] at htok
+      subst htok
+      have hd : d.away = true := rfl
+      simp only [hd, if_true, liftMt]
+      rw [transferOwner_eq _ cls id amt mtModAddr sender (Ne.symm hne) (by simp [upd_apply]; omega)
+            (by simp [upd_apply]) (by simp [upd_apply, hk2]; omega)]
+      refine ⟨rfl, ?_, rfl⟩
+      funext k
+      simp only [upd_apply]
+      by_cases e1 : k = (cls, id, sender)
+      · subst e1; simp [hk2]; omega
+      · by_cases e2 : k = (cls, id, mtModAddr)
+        · subst e2; simp [hk1]
+        · simp [e1, e2]
+    · -- the send would have been refused
+      unfold transferOwner at htok
+      have : a.mt.bal (cls, id, sender) < amt := by omega
+      simp [this, liftMt] at htok
+  | false =>
+    simp only [Bool.false_eq_true, if_false] at htok
+    by_cases hen : amt ≤ a.mt.bal (cls, id, sender)
+    · rw [burn_eq a.mt cls id amt sender (by omega) hen hsup (by omega)] at htok
+      simp only [liftMt, Prod.mk.injEq, and_true] at htok
+      subst htok
+      have hd : d.away = false := rfl
+      simp only [hd, Bool.false_eq_true, if_false, liftMt]
+      rw [mintMT_eq _ cls id amt mtModAddr (by simp [upd_apply]; omega) (by simp [upd_apply, hk1]; omega)]
+      simp only
+      rw [transferOwner_eq _ cls id amt mtModAddr sender (Ne.symm hne) (by simp [upd_apply, hk1]; omega)
+            (by simp [upd_apply, hk1]) (by simp [upd_apply, hk1, hk2]; omega)]
+      refine ⟨rfl, ?_, ?_⟩
+      · funext k
+        simp only [upd_apply]
+        by_cases e1 : k = (cls, id, sender)
+        · subst e1; simp [hk1, hk2]; omega
+        · by_cases e2 : k = (cls, id, mtModAddr)
+          · subst e2; simp [hk1]
+          · simp [e1, e2]
+      · funext k
+        simp only [upd_apply]
+        by_cases e1 : k = (cls, id)
+        · subst e1; simp; omega
+        · simp [e1]
+    · unfold burn at htok
+      have : a.mt.bal (cls, id, sender) < amt := by omega
+      simp [this, liftMt] at htok
+
+/-! ### per-chain conservation over all histories -/
+
+/-- **Conservation on every chain, over every history.** After any sequence of operations on any
+    number of chains (user mints / sends / burns, transfers out, receives, refunds, error
+    acknowledgements, failed and rolled-back messages), on every chain there is a finite set of
+    holders outside which every balance is zero, the balances of every (class, id) over that set add
+    up to exactly its recorded supply, and every supply (hence every balance) fits 64 bits: no
+    wrap-around ever happened and units are created and destroyed only by mint and burn. -/
+theorem mt_supply_conserved (ops : List Op) (c : Chain) : MtInv ((run H Hc World.init ops) c).apps.mt := by
+  suffices h : ∀ (w : World), (∀ q, MtInv (w q).apps.mt) → ∀ q, MtInv ((run H Hc w ops) q).apps.mt by
+    exact h World.init (fun q => mtInv_empty) c
+  induction ops with
+  | nil => intro w hw; exact hw
+  | cons op ops ih =>
+    intro w hw
+    simp only [run, List.foldl_cons]
+    exact ih _ (fun q => step_mtInv H Hc w op hw q)
+
+/-- consequence: no holder ever has more than the supply, and the supply never exceeds 2^64-1 -/
+theorem mt_balance_le_supply (ops : List Op) (c : Chain) (cls id : Str) (a : Addr) :
+    ((run H Hc World.init ops) c).apps.mt.bal (cls, id, a) ≤ ((run H Hc World.init ops) c).apps.mt.supply (cls, id) ∧
+    ((run H Hc World.init ops) c).apps.mt.supply (cls, id) ≤ U64MAX := by
+  obtain ⟨A, hA⟩ := mt_supply_conserved H Hc ops c
+  exact ⟨hA.bal_le cls id a, hA.2.2.2 cls id⟩
 
 end Tibc.C05
